@@ -29,6 +29,11 @@ def impl_eval(case):
             if lost:
                 why = f'PDS data beyond the carriers\' capacity was emitted with {len(lost)} sub-elements silently dropped'
         return {'obs': [o1, 'n/a'], 'violation': why, 'tags': ['pdsoverflow']}
+    if case.get('unencodable'):
+        # a character the message encoding does not have: there is no byte for it, so nothing may be emitted
+        if data is not None:
+            why = f"text with a character missing from {codec} was emitted ({case['unencodable']}) instead of being refused"
+        return {'obs': [o1, 'n/a'], 'violation': why, 'tags': ['unencodable']}
     if case.get('overlong'):
         if data is not None:
             why = (f"a variable-length value longer than its prefix can count was emitted "
@@ -103,6 +108,14 @@ def explore(run, tier):
                 for n in {1, fc['field_length'] // 2, fc['field_length'] - 1}:
                     m = {'MTI': '1240', f'DE{b}': iu.text(rng, codec, n).rstrip(' ') or 'x'}
                     cases.append(c01.mk('pkg', codec, b % 2, m, {}))
+    # characters the encoding does not have, in fixed / variable text elements and in PDS values
+    for codec in codecs3 + ['ascii']:
+        for ch in ('\u20ac', '\u0141', '\u0179', '\u3042'):
+            for m in ({'MTI': '1240', 'DE41': 'AB' + ch + 'DEFGH'}, {'MTI': '1240', 'DE2': '55555' + ch + '5555555555'},
+                      {'MTI': '1240', 'PDS0023': 'x' + ch + 'y'}, {'MTI': '1240', 'DE48': '0023003a' + ch + 'b'}):
+                c = c01.mk('pkg', codec, 0, m, {})
+                c['unencodable'] = f'U+{ord(ch):04X}'
+                cases.append(c)
     # more PDS data than the carriers hold
     for codec in codecs3:
         for ents in ([(100 + i, 'x' * 992) for i in range(6)], [(i, 'y' * 490) for i in range(11)],
@@ -143,8 +156,21 @@ def explore(run, tier):
                         and not fc.get('field_python_type') and rng.random() < 0.5:
                     m[k] = m[k][:rng.randrange(1, len(m[k]))]
         cases.append(c01.mk('pkg', codec, rng.randrange(2), m, e))
-    for _ in range(10 if tier == 'quick' else 60):
-        cfg = iu.gen_config(rng)
+    # decimal elements given in forms whose str() has an exponent or is not the field's own layout
+    import decimal
+    dcfg = {'2': {'field_name': 'pan', 'field_type': 'LLVAR', 'field_length': 0},
+            '4': {'field_name': 'd12', 'field_type': 'FIXED', 'field_length': 12, 'field_python_type': 'decimal'},
+            '5': {'field_name': 'd6', 'field_type': 'FIXED', 'field_length': 6, 'field_python_type': 'decimal'}}
+    for codec in codecs3:
+        for txt in ['1E+2', '100.00', '0.0000001', '2.5E+3', '-1.5', '0', '0E+3', '12.50', '1E-3', '123456', '-0', '7']:
+            v = decimal.Decimal(txt)
+            for k in ('DE4', 'DE5'):
+                w = dcfg[k[2:]]['field_length']
+                if len(format(v, f'0{w}f')) == w:
+                    cases.append(c01.mk(dcfg, codec, 0, {'MTI': '1240', k: v}, {}))
+                    cases.append(c01.mk(dcfg, codec, 1, {'MTI': '1240', k: v.normalize()}, {}))
+    for gi in range(10 if tier == 'quick' else 60):
+        cfg = iu.gen_config(rng, with_decimal=(gi % 3 == 0), decimal_widths=(3, 8, 15, 30))
         for _ in range(60 if tier == 'quick' else 300):
             codec = rng.choice(iu.CODECS)
             m, e = iu.gen_message(rng, cfg, codec)
